@@ -787,14 +787,19 @@ func (s *session) closeLocked() error {
 }
 
 func (s *session) readDisconnected(oldConn net.Conn, err error) {
-	status := s.getStatus()
-	verifGate("disc.read", s)
-	switch status {
-	case statusPassiveClosed, statusActiveClosed, statusPassiveClosing:
-		return
-	case statusActiveClosing:
-	default:
-		s.changeStatus(statusPassiveClosing)
+	var status int32
+	for {
+		status = s.getStatus()
+		verifGate("disc.read", s)
+		switch status {
+		case statusPassiveClosed, statusActiveClosed, statusPassiveClosing:
+			return
+		}
+		// Move to passive-closing only from the status that was read: if a
+		// concurrent Close won the race, read again and follow the active-closing path.
+		if status == statusActiveClosing || s.tryChangeStatus(statusPassiveClosing, status) {
+			break
+		}
 	}
 	verifGate("disc.stored", s)
 
